@@ -1,4 +1,4 @@
-(* Proofs/RapidProgProofs.v — the canonical program of Model/RapidProg.v (rapidproto.go transcribed) interpreted IS the
+(* Proofs/RapidProgBase.v (first of three files: RapidProgBase, RapidProgField, RapidProgProofs) — the canonical program of Model/RapidProg.v (rapidproto.go transcribed) interpreted IS the
    hand-written generator model RapidGen.gen (task T16).
 
    Method: symbolic execution of the interpreter by [cbn] restricted to the interpreter's own functions ([rp]); the model's
@@ -31,6 +31,41 @@ Ltac rpcbn := cbn [
   nth_error length app firstn Nat.eqb map fst snd set_nth slots_of unk_of].
 (* [cbn] refolds a constant whose unfolding is stuck at its head: those are unfolded by hand *)
 Ltac rp := repeat (progress (rpcbn; unfold rp_eval1, rp_mapper)).
+
+(* the same, one statement at a time: blocks, switch clauses and loops are entered by rewriting with the lemmas below *)
+Ltac rpcbnL := cbn [
+  rp_run rp_find rp_bind rp_all_params rp_exec rp_eval rp_evals rbind rp_get rp_set rp_define rp_assign rp_blank
+  rp_fn rp_meth rp_bin rp_eq rp_sel rp_call rp_borrow rp_root0 rp_sub sget sset vget vset h_root h_path h_kind
+  rp_case_match rp_items rp_zero rp_find_const rp_const_eval rp_draw rp_gen1
+  rp_msg_mutable rp_msg_set rp_msg_clear rp_list_of rp_map_of
+  str_eq gf_bytes_eqb gname_bytes gname_of_bytes Byte.eqb Byte.to_bits Bool.eqb andb orb negb
+  canon_rapidproto canon_MessageGenerator canon_FieldMapper canon_GeneratorOptions canon_depthLimit canon_WithAnyTypes
+  canon_WithDisallowNil canon_WithInterfaceHint canon_setFields canon_timestampFullName canon_durationFullName canon_anyFullName
+  canon_fieldMaskFullName canon_setFieldValue canon_genScalarFieldValue canon_MaxDurationSeconds canon_secondsName canon_nanosName
+  canon_genTimestamp canon_genDuration canon_setSecondsNanosFields canon_typeURLName canon_valueName canon_genAny canon_pathsName
+  canon_genFieldMask rf_name rf_tparams rf_recv rf_params rf_results rf_body
+  wkt_of_name wkt_field wkt_eqb rp_lit rp_path_regexp rp_url_format rkind_eqb kind_eqb
+  nth_error length app firstn Nat.eqb map fst snd set_nth slots_of unk_of].
+Ltac rpL := repeat (progress (rpcbnL; unfold rp_eval1, rp_mapper)).
+
+Lemma blk_cons o sch ann prog call s t en st tp :
+  rp_block (rp_exec o sch ann prog call) (s :: t) en st tp =
+    match rp_exec o sch ann prog call s en st tp with
+    | ROk (SgNext en1) st1 tp1 => rp_block (rp_exec o sch ann prog call) t en1 st1 tp1
+    | r => r
+    end.
+Proof. reflexivity. Qed.
+Lemma blk_nil o sch ann prog call en st tp : rp_block (rp_exec o sch ann prog call) [] en st tp = ROk (SgNext en) st tp.
+Proof. reflexivity. Qed.
+Lemma cases_cons o sch ann prog call blk tag dflt es body t en st tp :
+  rp_cases o sch ann prog call blk tag dflt ((es, body) :: t) en st tp =
+    rbind (rp_case_match o sch ann prog call tag es en st tp)
+          (fun hit st1 tp1 => if hit then blk body en st1 tp1 else rp_cases o sch ann prog call blk tag dflt t en st1 tp1).
+Proof. reflexivity. Qed.
+Lemma cases_nil o sch ann prog call blk tag dflt en st tp : rp_cases o sch ann prog call blk tag dflt [] en st tp = blk dflt en st tp.
+Proof. reflexivity. Qed.
+(* one statement of the block at the head of the goal *)
+Ltac st := rewrite blk_cons; rpL.
 
 (* closed integer comparisons *)
 Ltac is_pos p := lazymatch p with xH => idtac | xO ?q => is_pos q | xI ?q => is_pos q end.
@@ -286,11 +321,12 @@ Section Sim.
 
   (* ---- genScalarFieldValue ---------------------------------------------------------------------------------------- *)
   Lemma run_scalar F fd k decl lbl tp :
+    (1 <= F)%nat ->
     rp_fd_scalar sch ann fd = Some (k, decl) -> rp_fd_kind sch fd = Some (RkScalar k) -> (k = KEnum -> decl <> []) ->
-    R (S F) "genScalarFieldValue" [RvOpts; RvT; RvFd fd; lbl] [] tp =
+    R F "genScalarFieldValue" [RvOpts; RvT; RvFd fd; lbl] [] tp =
       let (v, t) := gen_scalar code_variant o k decl tp in ROk [RvPV v] [] t.
   Proof.
-    intros Hs Hk He. unfold gen_scalar.
+    intros HF Hs Hk He. destruct F as [|F]; [lia|]. unfold gen_scalar.
     assert (Hdef : forall tp0,
       match
         rp_block (EX (R F))
@@ -339,24 +375,24 @@ Section Sim.
   Qed.
 
   Lemma run_ts F mid md ma a b tp :
-    get_msg sch mid = Some md -> nth_error ann mid = Some ma -> a_wkt ma = WTimestamp ->
-    R (S (S F)) "genTimestamp" [RvOpts; RvT; RvH (rp_root0 (HkMsg mid))] [VMsg [a; b] []] tp =
+    (2 <= F)%nat -> get_msg sch mid = Some md -> nth_error ann mid = Some ma -> a_wkt ma = WTimestamp ->
+    R F "genTimestamp" [RvOpts; RvT; RvH (rp_root0 (HkMsg mid))] [VMsg [a; b] []] tp =
       let (s, t1) := draw_z (-9999999999) 9999999999 tp in
       let (n, t2) := draw_z 0 999999999 t1 in ROk [] [VMsg [VInt s; VInt n] []] t2.
   Proof.
-    intros Hm Ha Hw. pose proof (layout_of _ _ _ Hm Ha) as Hl. rewrite Hw in Hl.
+    intros HF Hm Ha Hw. destruct F as [|[|F]]; try lia. pose proof (layout_of _ _ _ Hm Ha) as Hl. rewrite Hw in Hl.
     rp. zc. destruct (draw_z (-9999999999) 9999999999 tp) as [s t1]. rp. zc.
     destruct (draw_z 0 999999999 t1) as [n t2]. rp.
     rewrite Ha, Hw. rp. rewrite Hm, Hl. rp. cbn [fld f_shape]. rp. rewrite Ha, Hw. rp. rewrite Hm, Hl. rp. cbn [fld f_shape]. rp. reflexivity.
   Qed.
 
   Lemma run_dur F mid md ma a b tp :
-    get_msg sch mid = Some md -> nth_error ann mid = Some ma -> a_wkt ma = WDuration ->
-    R (S (S F)) "genDuration" [RvOpts; RvT; RvH (rp_root0 (HkMsg mid))] [VMsg [a; b] []] tp =
+    (2 <= F)%nat -> get_msg sch mid = Some md -> nth_error ann mid = Some ma -> a_wkt ma = WDuration ->
+    R F "genDuration" [RvOpts; RvT; RvH (rp_root0 (HkMsg mid))] [VMsg [a; b] []] tp =
       let (s, t1) := draw_z 0 9223372035 tp in
       let (n, t2) := draw_z 0 999999999 t1 in ROk [] [VMsg [VInt s; VInt n] []] t2.
   Proof.
-    intros Hm Ha Hw. pose proof (layout_of _ _ _ Hm Ha) as Hl. rewrite Hw in Hl.
+    intros HF Hm Ha Hw. destruct F as [|[|F]]; try lia. pose proof (layout_of _ _ _ Hm Ha) as Hl. rewrite Hw in Hl.
     rp. zc. rp. replace (Z.quot 9223372036854775807 1000000000 - 1)%Z with 9223372035%Z by (vm_compute; reflexivity). zc.
     destruct (draw_z 0 9223372035 tp) as [s t1]. rp. zc.
     destruct (draw_z 0 999999999 t1) as [n t2]. rp.
@@ -375,12 +411,12 @@ Section Sim.
   Qed.
 
   Lemma run_fm F mid md ma a tp :
-    get_msg sch mid = Some md -> nth_error ann mid = Some ma -> a_wkt ma = WFieldMask ->
-    R (S F) "genFieldMask" [RvOpts; RvT; RvH (rp_root0 (HkMsg mid))] [VMsg [a] []] tp =
+    (1 <= F)%nat -> get_msg sch mid = Some md -> nth_error ann mid = Some ma -> a_wkt ma = WFieldMask ->
+    R F "genFieldMask" [RvOpts; RvT; RvH (rp_root0 (HkMsg mid))] [VMsg [a] []] tp =
       let (n, t1) := draw_n 1 5 tp in
       let (paths, t2) := draw_many draw_path (N.to_nat n) t1 in ROk [] [VMsg [VList (map VBytes paths)] []] t2.
   Proof.
-    intros Hm Ha Hw. pose proof (layout_of _ _ _ Hm Ha) as Hl. rewrite Hw in Hl.
+    intros HF Hm Ha Hw. destruct F as [|F]; [lia|]. pose proof (layout_of _ _ _ Hm Ha) as Hl. rewrite Hw in Hl.
     rp. zc. cbn [Z.to_N]. destruct (draw_n 1 5 tp) as [n t1]. destruct (draw_many draw_path (N.to_nat n) t1) as [paths t2]. rp.
     rewrite Ha, Hw. rp. unfold rp_field. rewrite Hm, Hl. rp. cbn [fld f_shape]. rp.
     rewrite range_paths; [|intros p acc tp0; rp; eexists; reflexivity]. rp. rewrite Hm, Hl. rp. cbn [fld f_shape]. rp. reflexivity.
@@ -465,4 +501,5 @@ Section Sim.
         destruct (draw_n 0 (N.of_nat (S (length us)) - 1) tp) as [j t1] eqn:Edr.
         any_tail Hc HB Hm Ha Hw Hl F depth child (nth (N.to_nat j) (u :: us) 0%nat) t1.
   Qed.
+
 End Sim.
